@@ -17,13 +17,11 @@ func newSpecHarnessValidator(sw *spec.Swagger, ops map[string]map[string]*spec.O
 	paramSchema := spec.Schema{}
 	root := &spec.Schema{}
 	root.Definitions = spec.Definitions{"parameter": paramSchema} // the re-validation of parameters against the Swagger schema is outside the claim
-	s := &SpecValidator{
-		schema:        root,
-		spec:          verifNewDocument(sw),
-		analyzer:      verifNewAnalyzer(ops),
-		KnownFormats:  &verifRegistry{},
-		schemaOptions: &SchemaValidatorOptions{EnableObjectArrayTypeCheck: true, EnableArrayMustHaveItemsCheck: true, recycleValidators: true},
-	}
+	// built by the library's own constructor (its schema options are the real ones), then pointed at
+	// the harness's document and analyser
+	s := NewSpecValidator(root, &verifRegistry{})
+	s.spec = verifNewDocument(sw)
+	s.analyzer = verifNewAnalyzer(ops)
 	s.Options.ContinueOnErrors = cont
 	s.Options.StrictPathParamUniqueness = strict
 	return s
@@ -926,6 +924,11 @@ func HarnessC12Spec() {
 	resp.Schema = spec.RefSchema("#/definitions/D")
 	op.Responses.StatusCodeResponses = map[int]spec.Response{200: resp}
 	cont := verifBool()
+	// parameters shared at the path item level, one of them a reference into #/parameters
+	sw.Parameters = map[string]spec.Parameter{"limit": *spec.QueryParam("limit").Typed("integer", "int32")}
+	pi := sw.Paths.Paths["/p"]
+	pi.Parameters = []spec.Parameter{*spec.ParamRef("#/parameters/limit"), *spec.HeaderParam("h").Typed("string", "")}
+	sw.Paths.Paths["/p"] = pi
 	s := newSpecHarnessValidator(sw, ops, cont, true)
 	s.schema = &spec.Schema{}
 	s.schema.Definitions = spec.Definitions{"parameter": wholeParamSchema()}
